@@ -177,7 +177,8 @@ class SizedCall:
         for k, v in size_kw.items():
             if k not in axes and k not in ell:
                 axes[k] = int(v)                  # output-only axis (broadcast)
-        int_inputs = set(range(1, len(call["shapes"]))) if call["family"] == "get_at" else set()
+        int_inputs = (set(range(1, len(call["shapes"]))) if call["family"] == "get_at"
+                      else set(range(1, len(call["shapes"]) - 1)) if call["family"] == "update_at" else set())
         return cls(call["op"], call["family"], desc, backend, axes, ell, list(size_kw), other_kw, len(call["shapes"]), int_inputs, factories, call.get("note", ()))
 
     def keys(self):
@@ -368,6 +369,11 @@ EXTRA_CALLS = [
     {"op": "logsumexp", "family": "reduce", "desc": "a [b] c", "shapes": [(4, 5, 6)], "kwargs": {}, "note": []},
     {"op": "roll", "family": "preserve_shape", "desc": "a [b] c", "shapes": [(4, 5, 6)], "kwargs": {"shift": 2}, "note": []},
     {"op": "flip", "family": "preserve_shape", "desc": "a [b] c", "shapes": [(4, 5, 6)], "kwargs": {}, "note": []},
+    # indexed updates: the intermediate axis order (_join_exprs) must not depend on axis lengths
+    {"op": "add_at", "family": "update_at", "desc": "[h] c, p, c p -> [h] c", "shapes": [(5, 3), (2,), (3, 2)], "kwargs": {}, "note": ["update", "tie"]},
+    {"op": "set_at", "family": "update_at", "desc": "[h] c, p, p c -> [h] c", "shapes": [(5, 3), (4,), (4, 3)], "kwargs": {}, "note": ["update"]},
+    {"op": "subtract_at", "family": "update_at", "desc": "b [h w] c, b p [2], p c b -> b [h w] c", "shapes": [(2, 5, 6, 3), (2, 4, 2), (4, 3, 2)], "kwargs": {}, "note": ["update", "coords"]},
+    {"op": "add_at", "family": "update_at", "desc": "[h], p q, q p -> [h]", "shapes": [(7,), (2, 3), (3, 2)], "kwargs": {}, "note": ["update", "tie"]},
 ]
 
 
